@@ -142,7 +142,19 @@ pub enum AAction {
     BridgeLock { bridge: u8, matching_asset: bool, asset: u8, amt: Amt, fee: u8, dest_len: u8 },
     BridgeUnlock { bridge: u8, to: u8, amt: Amt, fee: u8, event: u8, block_no: u8 },
     BridgeTransfer { from: u8, to: u8, amt: Amt, fee: u8, event: u8 },
-    Ics20Withdrawal { from_bridge: Option<u8>, asset: u8, amt: Amt, channel: u8, fee: u8, event: u8, timeout_ok: bool },
+    Ics20Withdrawal {
+        from_bridge: Option<u8>,
+        asset: u8,
+        amt: Amt,
+        channel: u8,
+        fee: u8,
+        event: u8,
+        timeout_ok: bool,
+        /// where a refund goes: 0 = back to the account the funds came from, k = to key k - 1
+        /// (which may be another bridge account holding another asset)
+        #[serde(default)]
+        ret: u8,
+    },
     InitBridge { rollup: u8, asset: u8, sudo: Option<u8>, withdrawer: Option<u8>, fee: u8 },
     BridgeSudoChange { bridge: u8, new_sudo: Option<u8>, new_withdrawer: Option<u8>, disable: bool, fee: u8 },
     SudoChange { new: u8 },
@@ -381,9 +393,10 @@ fn general_action(bias: &Bias) -> BoxedStrategy<AAction> {
                 fee_asset(),
                 event(),
                 prop::bool::weighted(0.9),
+                prop_oneof![4 => Just(0_u8), 1 => 1_u8..=N_KEYS as u8],
             )
                 .prop_map(
-                    |(from_bridge, asset, amt, channel, fee, event, timeout_ok)| {
+                    |(from_bridge, asset, amt, channel, fee, event, timeout_ok, ret)| {
                         AAction::Ics20Withdrawal {
                             from_bridge,
                             asset,
@@ -392,6 +405,7 @@ fn general_action(bias: &Bias) -> BoxedStrategy<AAction> {
                             fee,
                             event,
                             timeout_ok,
+                            ret,
                         }
                     },
                 )
@@ -1175,7 +1189,7 @@ pub fn concretize(atx: &ATx, view: &View, pre: &Dump, built_so_far: &[BuiltTx], 
                     rollup_withdrawal_event_id: event_id(*event),
                 })
             }
-            AAction::Ics20Withdrawal { from_bridge, asset, amt, channel, fee, event, timeout_ok } => {
+            AAction::Ics20Withdrawal { from_bridge, asset, amt, channel, fee, event, timeout_ok, ret } => {
                 let mut from_bridge = from_bridge.map(fix_slot);
                 if repair {
                     match from_bridge {
@@ -1217,7 +1231,11 @@ pub fn concretize(atx: &ATx, view: &View, pre: &Dump, built_so_far: &[BuiltTx], 
                     amount,
                     denom: w.asset(asset_idx).clone(),
                     destination_chain_address: "cosmos1destination".to_string(),
-                    return_address: world::address(&source),
+                    return_address: if *ret == 0 {
+                        world::address(&source)
+                    } else {
+                        w.addr((*ret as usize - 1) % N_KEYS)
+                    },
                     timeout_height: IbcHeight::new(2, if *timeout_ok { 1_000_000 } else { 1 }).unwrap(),
                     timeout_time: if *timeout_ok {
                         ((T0 + 1_000_000) as u64) * 1_000_000_000
@@ -1907,8 +1925,7 @@ pub fn incoming_packet(
 
 /// The packet a successful `Ics20Withdrawal` sent (rebuilt from the action, as the counterparty
 /// would echo it back in an acknowledgement or timeout).
-pub fn outgoing_packet(action: &Ics20Withdrawal, signer: &[u8; 20], sequence: u64) -> PacketInfo {
-    let source = action.bridge_address.map_or(*signer, |b| b.bytes());
+pub fn outgoing_packet(action: &Ics20Withdrawal, _signer: &[u8; 20], sequence: u64) -> PacketInfo {
     let sender = if action.use_compat_address {
         action
             .return_address
@@ -1944,7 +1961,9 @@ pub fn outgoing_packet(action: &Ics20Withdrawal, signer: &[u8; 20], sequence: u6
         denom_text: action.denom.to_string(),
         local_asset: Some(action.denom.clone()),
         amount: Some(action.amount),
-        receiver: Some(source),
+        // a refund (timeout / error acknowledgement) is paid to the packet's sender, which is the
+        // withdrawal's return address - not necessarily the account the funds came from
+        receiver: Some(action.return_address.bytes()),
         memo: action.memo.clone(),
     }
 }
